@@ -724,6 +724,43 @@ def op_async_history(d, backend, prefix, saves, use_async, stall):
   return f
 
 
+def op_async_snapshot(d, backend, prefix, n_saves):
+  """A host-side training loop that updates one tree in place and saves it
+  through an AsyncManager whose single worker is busy when each save is
+  issued: what is saved is the tree as it was when save_checkpoint was
+  called."""
+  def f():
+    import threading
+    warnings.simplefilter('ignore')
+    fconfig.update('flax_use_orbax_checkpointing', backend == 'orbax')
+    am = checkpoints.AsyncManager()
+    tree = tree_for(0)
+    tree['k'] = 0
+    for i in range(1, n_saves + 1):
+      tree['a'] += 1                 # in-place update of the host arrays
+      tree['n']['s'] = np.float32(i)
+      tree['k'] = i
+      am.wait_previous_save()
+      gate = threading.Event()
+      am.executor.submit(gate.wait)  # the worker is busy right now
+      checkpoints.save_checkpoint(d, tree, i, prefix=prefix, keep=n_saves,
+                                  async_manager=am)
+      # the caller goes on training while the save is still queued
+      tree['a'] += 1000
+      tree['n']['s'] = np.float32(-1)
+      tree['k'] = -1
+      gate.set()
+      am.wait_previous_save()
+      tree['a'] -= 1000
+    out = {}
+    for i in range(1, n_saves + 1):
+      t = checkpoints.restore_checkpoint(d, None, step=i, prefix=prefix)
+      out[i] = [[int(x) for x in np.asarray(t['a']).tolist()],
+                float(np.asarray(t['n']['s'])), int(np.asarray(t['k']))]
+    return out
+  return f
+
+
 @clause('async_manager',
         strategy=lambda: st.tuples(history_strategy(max_crash=1, min_ops=2,
                                                     max_ops=6),
@@ -734,7 +771,8 @@ def op_async_history(d, backend, prefix, saves, use_async, stall):
         'one AsyncManager (worker thread stalled at every j-th file event '
         'until the main thread enters the next save): identical outcomes per '
         'call, identical retained steps and restored trees; also compared '
-        'with the reference policy; non-trivial = >=3 saves with keep_every_n '
+        'with the reference policy; a tree that the caller keeps updating in '
+        'place is saved as it was when each asynchronous save was issued; non-trivial = >=3 saves with keep_every_n '
         'or overwrite or a rejected save')
 def async_manager(case, ctx):
   hist, stall = case
@@ -776,6 +814,21 @@ def async_manager(case, ctx):
               f'{obs_a[key]}')
     require(ckpt_names(obs_s['names'], hist['prefix']) == ckpt_names(
         obs_a['names'], hist['prefix']), 'different checkpoint names')
+    if hist['backend'] == 'legacy':
+      d3 = os.path.join(base, 'snapshot', 'ckpts')
+      os.makedirs(d3)
+      n3 = 1 + stall % 3
+      r3 = run_child(op_async_snapshot(d3, hist['backend'], hist['prefix'],
+                                       n3))
+      if r3['status'] != 'ok':
+        raise Violation(f'async saves of a tree updated in place failed: '
+                        f'{r3}')
+      for i in range(1, n3 + 1):
+        exp3 = [[i, i + 1, i + 2], float(i), i]
+        require(r3['value'][i] == exp3, lambda: f'restoring step {i} returns '
+                f'{r3["value"][i]}, the tree passed to save_checkpoint('
+                f'async_manager=...) was {exp3}: the tree was not captured '
+                'when the save was issued')
     ctx.note(labels=[hist['backend'], f'stall{stall}'],
              nontrivial=len(saves) >= 3 and ('err' in norm(out_s) or any(
                  s[3] or s[4] for s in saves)))
